@@ -226,7 +226,7 @@ SUBST = ['fragment', 'rule', 'reactant', 'labeled', 'single', 'double', 'bond to
          'ring', 'has', 'radical electrons', 'with', 'bond', '{', '}', '(', ')', ',', '!', '>=', '<', '=', '1', '0', '12', 'C', 'c', 'H', '$',
          '&', 'X', '+', '-', '.', ':', '?', '*', 'any atom', 'heavy atom', 'group', 'constraints{', 'duplicates', '=>', 'form', 'break',
          'increase bond order', 'modify atomtype', 'positive', 'olefinic', 'cyclic', 'aromatic', 'allylic', 'stereo double bond', 'cis',
-         'to', 'for double bond between', 'and', 'AtomLabel', 'Symbols', '||', '&&', '', ' ', '\n', 'é', 'Xe', 'Cl', '²', '①', '٣']
+         'to', 'for double bond between', 'and', 'AtomLabel', 'Symbols', '||', '&&', '', ' ', '\n', 'é', 'Xe', 'Cl', '²', '①', '٣', '\ufb01', '\u01c6', '\ufb03']
 
 
 @st.composite
@@ -308,6 +308,12 @@ def enum_fixed(tier):
               'fragment a{C labeled c1} garbage', 'fragment a{C labeled c1}}', 'fragment a{C labeled c1} fragment b{C labeled c1}',
               'x', '{', '}', '$', 'C', '0', 'é', 'fragment é{C labeled c1}', 'fragment a{C labeled é}', 'fragment a{C labeled ١}',
               'fragment a{C labeled c1 {in ring of size ٣}}', 'fragment a{C labeled c1 {connected to >١ C}}',
+              # deeply nested parentheses in a constraints block (reading time must stay proportional to the text)
+              'rule r{reactant a{C labeled c1} constraints{' + '(' * 12 + 'a.size>2' + ')' * 12 + '} increase number of radical (c1) decrease number of radical (c1)}',
+              'rule r{reactant a{C labeled c1} constraints{' + '(' * 30 + 'a.size>2' + ')' * 30 + '} increase number of radical (c1) decrease number of radical (c1)}',
+              'rule r{reactant a{C labeled c1} constraints{' + '(' * 30 + 'a.size>2' + ')' * 7,
+              # characters that become several under compatibility normalisation (ligatures, digraphs): positions refer to the text given
+              'fragment \ufb01rst{C labeled', 'fragment \u01c6{C labeled c1', 'fragment a{C labeled \ufb031 C labeled', 'fragment \ufb04{C labeled c1 C labeled c2 single bond',
               # characters that count as digits without being decimal digits (superscripts, circled numbers)
               'fragment a{C labeled c1 {in ring of size ²}}', 'fragment a{C labeled c1 {connected to ²C}}', 'fragment a{C labeled c1 {in ①ring}}',
               'fragment a{C labeled c1 {has >=³ radical electrons}}', 'fragment a{C labeled c1 {connected to 1² C}}', 'fragment a{C labeled c1 {in ring of size 12}}']:
@@ -318,7 +324,7 @@ def enum_fixed(tier):
 
 
 def random_text():
-    alpha = st.sampled_from(list('abcCHOXlfr{}()!,.:+-?*$&<>=0123456789 \n\t_') + ['fragment', 'labeled', ' bond to ', 'rule', 'reactant', 'é', 'ß', '١', '𝔸', '²', '①'])
+    alpha = st.sampled_from(list('abcCHOXlfr{}()!,.:+-?*$&<>=0123456789 \n\t_') + ['fragment', 'labeled', ' bond to ', 'rule', 'reactant', 'é', 'ß', '١', '𝔸', '²', '①', '\ufb01', '\u01c6'])
     return st.one_of(st.text(alphabet=st.characters(min_codepoint=32, max_codepoint=126), max_size=60),
                      st.lists(alpha, max_size=40).map(''.join), st.text(max_size=30),
                      st.sampled_from(['', ' ', '\n\n', '\t']))
